@@ -29,6 +29,11 @@ def run(prog, rep, tier, snap):
     rep.call(fillers.r09_4, prog, rep)
     rep.rule("R09.5", "divisions by a month length that can be 0 are guarded", 3)
     rep.call(fillers.r09_5, prog, rep)
+    rep.rule("R09.7", "an offset day-of-year is bounded above before the remainder-table lookup", 1)
+    rep.call(fillers.r09_7, prog, rep)
+    from . import c15
+    rep.rule("R15.4", "month-transition table accesses stay inside the table (shared with C15)", 5)
+    rep.call(c15.r15_4, prog, rep)
     if tier == "thorough":
         rep.rule("R09.6", "shift amounts of the fillers' masks stay below the word width", 8)
         rep.call(fillers.r09_6, prog, rep)
